@@ -16,24 +16,30 @@ pub struct ClientCfg {
 	pub max_concurrent_requests: usize,
 	pub sub_buffer: usize,
 	pub request_timeout: Duration,
+	/// WebSocket pings every so often; the read task's inactivity check ticks at the same period (the number of tolerated
+	/// failures is set so high that it never closes the connection)
+	pub ping_interval: Option<Duration>,
 }
 
 impl Default for ClientCfg {
 	fn default() -> Self {
 		// the request timeout is a real-time timer (futures_timer): 60 s never fires in virtual-time runs
-		ClientCfg { string_ids: false, max_concurrent_requests: 256, sub_buffer: 1024, request_timeout: Duration::from_secs(60) }
+		ClientCfg { string_ids: false, max_concurrent_requests: 256, sub_buffer: 1024, request_timeout: Duration::from_secs(60), ping_interval: None }
 	}
 }
 
 /// Build the real client on the scripted transport (must be called inside a tokio runtime).
 pub fn client(cfg: ClientCfg) -> (Arc<SimClient>, ServerSide) {
 	let (tx, rx, side): (ScriptSender, ScriptReceiver, ServerSide) = scripted_transport();
-	let c = ClientBuilder::default()
+	let mut b = ClientBuilder::default()
 		.request_timeout(cfg.request_timeout)
 		.max_concurrent_requests(cfg.max_concurrent_requests)
 		.max_buffer_capacity_per_subscription(cfg.sub_buffer)
-		.id_format(if cfg.string_ids { IdKind::String } else { IdKind::Number })
-		.build_with_tokio(tx, rx);
+		.id_format(if cfg.string_ids { IdKind::String } else { IdKind::Number });
+	if let Some(d) = cfg.ping_interval {
+		b = b.enable_ws_ping(jsonrpsee_core::client::async_client::PingConfig::new().ping_interval(d).inactive_limit(d).max_failures(usize::MAX / 2));
+	}
+	let c = b.build_with_tokio(tx, rx);
 	(Arc::new(c), side)
 }
 
@@ -95,9 +101,14 @@ impl ServerSide {
 	/// Wait (in virtual time) until the client has been silent for `idle`; return what it wrote meanwhile.
 	pub async fn collect_until_idle(&mut self, idle: Duration) -> Vec<(u64, WireMsg)> {
 		let mut v = Vec::new();
+		// (pings do not count as activity: with pings enabled the client is never completely silent)
+		let mut deadline = tokio::time::Instant::now() + idle;
 		loop {
-			match tokio::time::timeout(idle, self.out.recv()).await {
-				Ok(Some(ClientOut::Msg { ticket, text })) => v.push((ticket, parse_wire(&text))),
+			match tokio::time::timeout_at(deadline, self.out.recv()).await {
+				Ok(Some(ClientOut::Msg { ticket, text })) => {
+					v.push((ticket, parse_wire(&text)));
+					deadline = tokio::time::Instant::now() + idle;
+				}
 				Ok(Some(_)) => continue,
 				Ok(None) | Err(_) => return v,
 			}
